@@ -320,7 +320,8 @@ type zipEntry struct {
 	name    string // as stored in the archive
 	dir     bool
 	content []byte
-	deflate bool // compress (the replay stores: a flate writer costs ~1 MB of set-up per entry)
+	deflate bool   // compress (the replay stores: a flate writer costs ~1 MB of set-up per entry)
+	link    string // non-empty: a symbolic-link entry (mode bits of the header) whose content is this target
 }
 
 func zipWriteArchive(path string, entries []zipEntry) {
@@ -330,7 +331,12 @@ func zipWriteArchive(path string, entries []zipEntry) {
 	}
 	w := zip.NewWriter(f)
 	for _, e := range entries {
-		out, err := w.CreateHeader(&zip.FileHeader{Name: e.name, Method: zipMethod(e.deflate)})
+		hdr := &zip.FileHeader{Name: e.name, Method: zipMethod(e.deflate)}
+		if e.link != "" {
+			hdr.SetMode(os.ModeSymlink | 0o777)
+			e.content = []byte(e.link)
+		}
+		out, err := w.CreateHeader(hdr)
 		if err != nil {
 			harnessFatal("archive/zip refuses entry %q: %v", e.name, err)
 		}
@@ -854,9 +860,19 @@ func driveZipRoundTrip(tw *TraceWriter, rnd *rand.Rand, maxFiles int) {
 		harnessFatal("%v", err)
 	}
 	defer os.RemoveAll(root)
-	src := filepath.Join(root, []string{"src", "src dir", "src.d", "sröc"}[rnd.Intn(4)])
+	srcBase := []string{"src", "src dir", "src.d", "sröc", "d"}[rnd.Intn(5)]
+	src := filepath.Join(root, srcBase)
 	must(os.MkdirAll(src, 0o755))
 	names, hashes := &zipIds{}, &zipIds{}
+	// the source directory is sometimes given RELATIVE to the working directory, and names below it sometimes
+	// repeat the source directory's own name (whole, as a prefix, in the middle)
+	relSrc := rnd.Intn(3) == 0
+	randName := func() string {
+		if relSrc && rnd.Intn(4) == 0 || rnd.Intn(25) == 0 {
+			return []string{srcBase, "meta" + srcBase + ".json", srcBase + "-old", "new " + srcBase, srcBase + "/x"}[rnd.Intn(4)]
+		}
+		return zipRandName(rnd)
+	}
 
 	// directories: depth 0..4 below src
 	type dirT struct {
@@ -870,7 +886,7 @@ func driveZipRoundTrip(tw *TraceWriter, rnd *rand.Rand, maxFiles int) {
 		if len(parent.path) >= 4 {
 			continue
 		}
-		n := zipRandName(rnd)
+		n := randName()
 		if parent.used[n] {
 			continue
 		}
@@ -919,7 +935,7 @@ func driveZipRoundTrip(tw *TraceWriter, rnd *rand.Rand, maxFiles int) {
 		if rnd.Intn(3) == 0 {
 			d = dirs[0]
 		}
-		n := zipRandName(rnd)
+		n := randName()
 		if d.used[n] {
 			continue
 		}
@@ -948,6 +964,9 @@ func driveZipRoundTrip(tw *TraceWriter, rnd *rand.Rand, maxFiles int) {
 			if st, err := os.Stat(p); err == nil && st.IsDir() {
 				return true
 			}
+			if ap, err := filepath.Abs(p); err == nil {
+				p = ap
+			}
 			rel, err := filepath.Rel(src, p)
 			if err != nil {
 				return false
@@ -968,6 +987,16 @@ func driveZipRoundTrip(tw *TraceWriter, rnd *rand.Rand, maxFiles int) {
 		must(os.MkdirAll(dst, 0o755))
 	}
 	var zerr, uerr error
+	if relSrc {
+		// (the driver is sequential: nothing else in this process depends on the working directory)
+		wd, err := os.Getwd()
+		if err != nil {
+			harnessFatal("getwd: %v", err)
+		}
+		must(os.Chdir(root))
+		defer os.Chdir(wd)
+		srcArg = strings.Replace(srcArg, root+string(filepath.Separator), []string{"", "./"}[rnd.Intn(2)], 1)
+	}
 	zp, zpv := callPanics(func() { zerr = files.ZipFolder(srcArg, zipFile, filter, recursive) })
 	znames, _ := zipEntryNames(zipFile)
 	probe := newZipAbsProbe(znames)
@@ -1044,6 +1073,40 @@ func driveZipExtract(tw *TraceWriter, rnd *rand.Rand) {
 	ne := 1 + rnd.Intn(10)
 	var entries []zipEntry
 	var enames []string
+	// symbolic-link entries: chains of links each of which looks harmless on its own (".", a sibling, ".." from one
+	// level down), followed by a regular file reached through them; and the blunt ones (".." / absolute targets)
+	addLink := func(name, target string) {
+		entries = append(entries, zipEntry{name: name, link: target})
+		enames = append(enames, name)
+		tw.Emit(map[string]any{"op": "Entry", "slash": false, "dir": false, "segs": names.path(strings.Split(name, "/")), "name": name, "link": target})
+	}
+	addFile := func(name string) {
+		entries = append(entries, zipEntry{name: name, content: []byte("via link\n")})
+		enames = append(enames, name)
+		tw.Emit(map[string]any{"op": "Entry", "slash": false, "dir": false, "segs": names.path(strings.Split(name, "/")), "name": name})
+	}
+	n1, n2, n3 := pool[rnd.Intn(3)], pool[3+rnd.Intn(3)], "vz-evil"
+	switch rnd.Intn(8) {
+	case 0: // x -> "." ; x/y -> ".." (lexically still inside) ; y/evil
+		addLink(n1, ".")
+		addLink(n1+"/"+n2, "..")
+		addFile(n2 + "/" + n3)
+	case 1: // the blunt ones
+		addLink(n1, "..")
+		addFile(n1 + "/" + n3)
+		addLink(n2, root)
+		addFile(n2 + "/" + n3)
+	case 2: // through a directory entry and two links
+		entries = append(entries, zipEntry{name: n2 + "/", dir: true})
+		enames = append(enames, n2+"/")
+		tw.Emit(map[string]any{"op": "Entry", "slash": false, "dir": true, "segs": names.path([]string{n2}), "name": n2 + "/"})
+		addLink(n1, n2)
+		addLink(n2+"/up", "../..")
+		addFile(n1 + "/up/" + n3)
+	case 3: // a link that replaces an existing decoy-named file inside dest, then a file written through it
+		addLink(n1, "../"+pool[0])
+		addFile(n1)
+	}
 	for i := 0; i < ne; i++ {
 		var segs []string
 		ups := 0
